@@ -466,6 +466,11 @@ def update_forms(R, ctx, cfg, tag):
             form = st_name[:40]
             if is_mat:
                 if nz is not None:
+                    if some is None:
+                        # no branch on the optional cost factor: it must then enter as unwrap_or(cscale, 1) (the factor when present, one otherwise)
+                        uo = [c_ for c_ in f.calls if c_.callee.name == 'unwrap_or' and len(c_.args) == 2 and canon(f.sym_operand(c_.args[0])) == 'arg5' and canon(f.sym_operand(c_.args[1])) == 'one()']
+                        cfac = {'C': Fraction(1)} if uo else ONE
+                        R.check(bool(uo), 'form|%s|%s|c-used%s' % (f.name, form, tag), '%s for %s neither branches on the optional cost scaling nor folds it in with unwrap_or(cscale, 1)' % (f.name, st_name), f.loc())
                     want = V(umul(umul({'L[row]': Fraction(1)}, {'R[col]': Fraction(1)}), cfac))
                     R.check(nz == want, 'form|%s|%s|c=%s%s' % (f.name, form, some, tag),
                             '%s for %s (index form): an updated entry gets scaling %s, expected lscale[row]*rscale[col]%s = %s' % (
@@ -486,7 +491,13 @@ def update_forms(R, ctx, cfg, tag):
                 role = any(isinstance(k, str) and '[' in k for k in (elem_unit(got) or {}))
                 base = {'S[idx]': Fraction(1)} if role else {'@S': Fraction(1)}
                 want = V(umul(base, cfac))
-                if some is None:
+                own_store = any(c_.callee.name in ('index_mut',) for c_ in f.calls) or any(st_['p']['p'] and st_['p']['l'] == 2 for _b, _s, st_ in f.assignments())
+                if some is None and role and own_store and not any(c_.callee.name == 'update_vector' for c_ in f.calls):
+                    # an index form that writes the entries itself and does not branch on the optional cost factor: it must fold it in with unwrap_or(cscale, 1)
+                    uo = [c_ for c_ in f.calls if c_.callee.name == 'unwrap_or' and len(c_.args) == 2 and canon(f.sym_operand(c_.args[0])) == 'arg4' and canon(f.sym_operand(c_.args[1])) == 'one()']
+                    R.check(bool(uo) and got == V(umul(base, {'C': Fraction(1)})), 'form|%s|%s|c-used%s' % (f.name, form, tag),
+                            '%s for %s neither branches on the optional cost scaling nor folds it in with unwrap_or(cscale, 1) (entries get %s)' % (f.name, st_name, vfmt(got)), f.loc())
+                elif some is None:
                     R.check(elem_unit(got) is not None and all(k in ('@S', 'S[idx]', 'C') for k in elem_unit(got)) and ('@S' in elem_unit(got) or 'S[idx]' in elem_unit(got)),
                             'form|%s|%s%s' % (f.name, form, tag), '%s for %s leaves the vector with scaling %s' % (f.name, st_name, vfmt(got)), f.loc())
                 else:
